@@ -14,7 +14,7 @@ EXTENDS Report, IOUtils, TLCExt
 
 Traces == JsonDeserialize(IOEnv.VF_TRACES)
 VARIABLES tid, pc, rej, nacc, fin, last
-tvars == <<tid, pc, rej, nacc, fin, last, input, done>>
+tvars == <<tid, pc, rej, nacc, fin, last, input>>
 
 T  == Traces[tid]
 Ev == T.events[pc + 1]
@@ -41,7 +41,7 @@ Clause ==
 
 NextTrace == tid' = tid + 1 /\ pc' = 0 /\ last' = NoLast
 TInit == /\ tid = 1 /\ pc = 0 /\ rej = <<>> /\ nacc = 0 /\ fin = FALSE /\ last = NoLast
-         /\ input = <<>> /\ done = FALSE
+         /\ input = <<>>
 Step == /\ tid <= Len(Traces) /\ pc < Len(T.events)
         /\ IF Clause = "ok"
            THEN /\ pc' = pc + 1
@@ -49,12 +49,12 @@ Step == /\ tid <= Len(Traces) /\ pc < Len(T.events)
                 /\ UNCHANGED <<tid, rej, nacc, fin>>
            ELSE /\ rej' = Append(rej, [id |-> T.id, step |-> pc + 1, clause |-> Clause])
                 /\ NextTrace /\ UNCHANGED <<nacc, fin>>
-        /\ UNCHANGED <<input, done>>
+        /\ UNCHANGED input
 EndTrace == /\ tid <= Len(Traces) /\ pc = Len(T.events)
-            /\ nacc' = nacc + 1 /\ NextTrace /\ UNCHANGED <<rej, fin, input, done>>
+            /\ nacc' = nacc + 1 /\ NextTrace /\ UNCHANGED <<rej, fin, input>>
 Finish == /\ tid = Len(Traces) + 1 /\ ~fin /\ fin' = TRUE
           /\ PrintT(ToJson([accepted |-> nacc, rejected |-> rej]))
-          /\ UNCHANGED <<tid, pc, rej, nacc, last, input, done>>
+          /\ UNCHANGED <<tid, pc, rej, nacc, last, input>>
 TraceNext == Step \/ EndTrace \/ Finish
 TraceSpec == TInit /\ [][TraceNext]_tvars
 =============================================================================
